@@ -30,6 +30,7 @@ func enumAccessors(emit func(string)) {
 			for _, kind := range []string{"before", "after", "primary"} {
 				for _, when := range []string{"early", "middle", "late"} {
 					emit(fmt.Sprintf("acc|%s|%s|%s|%s", decl, msg, kind, when))
+					emit(fmt.Sprintf("acc|%s|%s|%s|%s|warm", decl, msg, kind, when))
 				}
 			}
 		}
@@ -37,10 +38,11 @@ func enumAccessors(emit func(string)) {
 }
 
 func execAccessors(spec string, parts []string) (res engine.Result) {
-	if len(parts) != 5 {
+	if len(parts) != 5 && !(len(parts) == 6 && parts[5] == "warm") {
 		res.Fail("harness:bad-spec", spec)
 		return
 	}
+	warm := len(parts) == 6
 	decl, msg, kind, when := parts[1], parts[2], parts[3], parts[4]
 	names := freshNames(3)
 	defer cleanup(names)
@@ -76,10 +78,33 @@ func execAccessors(spec string, parts []string) (res engine.Result) {
 		forms = append(forms, midSrc, leafSrc, meth)
 	}
 	history := strings.Join(forms, " ")
-	for _, f := range forms {
+	var olds []slip.Object
+	for i, f := range forms {
 		if _, err := lisp.Eval(f); err != nil {
 			res.Fail(fmt.Sprintf("acc decl=%s msg=%s kind=%s when=%s step=definition-fails:%s", decl, msg, kind, when, err.Class), history+" : "+f+" => "+err.String())
 			return
+		}
+		if !warm || i == len(forms)-1 {
+			continue
+		}
+		// warm: the accessors of every flavor that has x are used after every form; they answer x at every prefix
+		for _, h := range []string{mid, leaf} {
+			if flavors.Find(h) == nil || (h == mid && decl != "mid") {
+				continue
+			}
+			res.Hit("accessor-used-before-a-later-definition")
+			v, err := lisp.Eval(fmt.Sprintf("(let ((i (make-instance '%s))) (list (send i :x) (progn (send i :set-x 9) (send i :x)) i))", h))
+			if err != nil {
+				res.Fail(fmt.Sprintf("acc decl=%s msg=%s kind=%s when=%s warm=yes at=prefix got=error:%s", decl, msg, kind, when, err.Class), history+" ; accessors used after form "+f+" => "+err.String())
+				continue
+			}
+			if l, ok := v.(slip.List); ok && len(l) == 3 {
+				if lisp.Show(l[0]) != "7" || lisp.Show(l[1]) != "9" {
+					res.Fail(fmt.Sprintf("acc decl=%s msg=%s kind=%s when=%s warm=yes at=prefix got=wrong-value", decl, msg, kind, when),
+						fmt.Sprintf("%s ; after form %s: (send i :x) => %s, after (send i :set-x 9) => %s; required 7 and 9", history, f, lisp.Show(l[0]), lisp.Show(l[1])))
+				}
+				olds = append(olds, l[2])
+			}
 		}
 	}
 	res.Hit("histories")
@@ -131,7 +156,24 @@ func execAccessors(spec string, parts []string) (res engine.Result) {
 		probe(who+"-get", fmt.Sprintf("(send (make-instance '%s) :x)", h), "7", daemon("x"))
 		probe(who+"-set", fmt.Sprintf("(let ((i (make-instance '%s))) (send i :set-x 9) i)", h), "9", daemon("set-x"))
 	}
+	// instances made before the later definitions answer like new ones (their x was set to 9)
+	for _, old := range olds {
+		scope := slip.NewScope()
+		scope.Let(slip.Symbol("inst"), old)
+		if v, err := lisp.EvalIn(scope, "(send inst :x)"); err != nil || lisp.Show(v) != "9" {
+			got := ""
+			if err != nil {
+				got = err.String()
+			} else {
+				got = lisp.Show(v)
+			}
+			res.Fail(sig("probe=old-instance-get got=wrong-value"), history+" ; an instance made before the later forms, x set to 9: (send inst :x) => "+got)
+		}
+	}
 	res.Outcome = "ok"
+	if warm {
+		res.Outcome = "ok-warm"
+	}
 	return
 }
 
